@@ -107,6 +107,30 @@ START = z3.Const("start_pos", z3.IntSort())
 wf = z3.Function("wf_pairs", SeqPair, z3.IntSort(), z3.IntSort(), z3.BoolSort())
 
 
+# wf(P, lo, hi): the pairs of P lie inside [lo, hi], in input order, pairwise non-overlapping, each with
+# start <= end and its children recursively well-formed inside its own span.  The predicate is opaque; the
+# facts below are instances of lemmas that follow from that definition by induction on the length of P
+# (trusted; listed in evidence):
+def W1(lo, hi):  # noqa: N802
+    return wf(z3.Empty(SeqPair), lo, hi) == (lo <= hi)
+
+
+def W2(A, B, lo, mid, hi):  # noqa: N802, N803
+    return z3.Implies(z3.And(wf(A, lo, mid), wf(B, mid, hi)), wf(z3.Concat(A, B), lo, hi))
+
+
+def W3(P, lo, hi, lo2, hi2):  # noqa: N802, N803
+    return z3.Implies(z3.And(wf(P, lo, hi), lo2 <= lo, hi <= hi2), wf(P, lo2, hi2))
+
+
+def W4(name, s, e, ch, tag, lo, hi):  # noqa: N802
+    return z3.Implies(z3.And(lo <= s, s <= e, e <= hi, wf(ch, s, e)), wf(z3.Unit(mkpair(name, s, e, ch, tag)), lo, hi))
+
+
+def W5(P, lo, hi):  # noqa: N802, N803
+    return z3.Implies(wf(P, lo, hi), lo <= hi)
+
+
 def G(L, ok, L2, P) -> list[z3.BoolRef]:  # noqa: N802, N803
     """Generic contract every expression's parse() guarantees (and every K must imply)."""
     n = z3.Length(INP)
